@@ -436,7 +436,10 @@ class AtomicSaver:
             if self.part_file:
                 self._close_quietly()
             else:
-                os.close(fd)
+                try:
+                    os.close(fd)
+                except OSError:
+                    pass  # avoid masking original error
             self._rm_part_quietly()
             raise
         return
